@@ -315,7 +315,7 @@ fn check_inv(ctx: &InsertionContext, what: &str) -> Check {
 
 /// (v) R-feasibility of the assigned part through the public writer.
 /// Returns Ok(true) when an open known finding was hit (the state is tainted, the history must stop).
-fn check_feasible(ctx: &InsertionContext, rendered: &Rendered, what: &str, property: &str, stats: &Stats, refresh: bool, op_family: &str) -> Result<bool, Failure> {
+pub fn check_feasible(ctx: &InsertionContext, rendered: &Rendered, what: &str, property: &str, stats: &Stats, refresh: bool, op_family: &str) -> Result<bool, Failure> {
     let mut copy = ctx.deep_copy();
     if refresh {
         copy.restore();
